@@ -230,7 +230,12 @@ func checkC01(p *Prog, res *Result, tier string) {
 			construct := name + ": delete order guard"
 			newRev := p.resolveDeep(vb.pk.Rev)
 			guarded := false
-			for _, cf := range dominatingFacts(b.Commits[0].Block()) {
+			facts := dominatingFacts(b.Commits[0].Block())
+			if vb.ctx != nil {
+				// a batch helper shared by several writers: the guard is the one of this writer's call
+				facts = append(localFacts(b.Commits[0].Block()), dominatingFacts(vb.ctx.Block())...)
+			}
+			for _, cf := range facts {
 				if cf.X == nil {
 					continue
 				}
